@@ -80,6 +80,8 @@ mutual
       if D.contains lim && (scopedStmts D body).isSome && (scopedStmts D els).isSome then some D else none
     | .call buf _ base params =>
       if D.contains buf && allIn D (readsBase base) && params.all (fun kv => allIn D (readsE kv.2)) then some D else none
+    | .pluralS e cases dflt =>
+      if allIn D (readsE e) && scopedPlural D cases && (scopedStmts D dflt).isSome then some D else none
   def scopedStmts (D : List Bytes) : JsStmts → Option (List Bytes)
     | .nil => some D
     | .cons s r =>
@@ -91,6 +93,9 @@ mutual
     | .dflt body => (scopedStmts D body).isSome
     | .cons labels body rest =>
       labels.all (fun j => allIn D (readsE j)) && (scopedStmts D body).isSome && scopedCases D rest
+  def scopedPlural (D : List Bytes) : JsPlural → Bool
+    | .nil => true
+    | .cons _ body rest => (scopedStmts D body).isSome && scopedPlural D rest
   def scopedConds (D : List Bytes) : JsConds → Bool
     | .nil => true
     | .els body => (scopedStmts D body).isSome
@@ -643,7 +648,29 @@ mutual
       obtain ⟨s1, _, _⟩ := toPh_scope ae body buf sc a ha hs
       obtain ⟨D2, b1, b2, b3⟩ := scoped_parts rest buf a.2 b D1 hb2 s1 a2 (a3 _ hb)
       exact ⟨D2, by rw [scopedStmts_append, a1]; exact b1, b2, a3.trans b3⟩
-    | .plural .., _, _, _, _, h, _, _, _ => by simp [toParts] at h
+    | .plural p vn value cases dp dflt rest, buf, sc, r, D, h, hs, hc, hb => by
+      unfold toParts at h
+      obtain ⟨j, rc, rd, rr, hj, hrc, hrd, hstd, hrr, rfl⟩ := pluralJoin_some h
+      obtain ⟨c1, c2, _⟩ := toPCases_scope ae cases buf sc rc hrc hs
+      obtain ⟨d1, _, _⟩ := toParts_scope ae dflt buf rc.2 rd hrd c1
+      have hpc := scoped_pcases cases buf sc rc D hrc hs hc hb
+      obtain ⟨Dd, k1, _, _⟩ := scoped_parts dflt buf rc.2 rd D hrd c1 (hc.stack c2) hb
+      obtain ⟨D2, b1, b2, b3⟩ := scoped_parts rest buf rd.2 rr D hrr d1 (hc.stack hstd) hb
+      refine ⟨D2, ?_, b2, b3⟩
+      simp only [scopedStmts, scopedStmt, toAst_reads D sc hc value j hj, hpc, k1, Option.isSome_some, Bool.and_self, if_true]
+      exact b1
+  theorem scoped_pcases : ∀ (cs : PluralCases) (buf : Bytes) (sc : Scope) (r : JsPlural × Scope) (D : List Bytes),
+      toPCases ae buf cs sc = some r → ScOk sc → Covers D sc → D.contains buf = true → scopedPlural D r.1 = true
+    | .nil, buf, sc, r, D, h, hs, hc, hb => by
+      simp only [toPCases, Option.some.injEq] at h; subst h
+      rfl
+    | .cons p v bp body rest, buf, sc, r, D, h, hs, hc, hb => by
+      unfold toPCases at h
+      obtain ⟨rb, rr, hrb, hst, hrr, rfl⟩ := pcaseJoin_some h
+      obtain ⟨a1, _, _⟩ := toParts_scope ae body buf sc rb hrb hs
+      obtain ⟨D1, k1, _, _⟩ := scoped_parts body buf sc rb D hrb hs hc hb
+      have := scoped_pcases rest buf rb.2 rr D hrr a1 (hc.stack hst) hb
+      simp [scopedPlural, k1, this]
   theorem scoped_ph : ∀ (b : MsgPhBody) (buf : Bytes) (sc : Scope) (r : JsStmts × Scope) (D : List Bytes), toPh ae buf b sc = some r →
       ScOk sc → Covers D sc → D.contains buf = true → After D r
     | .htmlTag p t, buf, sc, r, D, h, hs, hc, hb => by
